@@ -110,17 +110,17 @@ def parallel(jobs):
 
 LIB_VARIANTS = {
     # no -DNDEBUG: mir_assert / gen_assert join every oracle
-    'asan': dict(cc='gcc', flags=['-O1', '-g', '-std=gnu11', '-fsigned-char', '-fPIC', '-w'] + ASAN),
-    'asan-inl0': dict(cc='gcc', flags=['-O1', '-g', '-std=gnu11', '-fsigned-char', '-fPIC', '-w',
+    'asan': dict(cc='gcc', flags=['-O1', '-g', '-std=gnu11', '-fsigned-char', '-fPIC', '-w', '-fno-tree-sra', '-fno-ipa-cp-clone'] + ASAN),
+    'asan-inl0': dict(cc='gcc', flags=['-O1', '-g', '-std=gnu11', '-fsigned-char', '-fPIC', '-w', '-fno-tree-sra', '-fno-ipa-cp-clone',
                                         '-DMIR_MAX_INSNS_FOR_INLINE=0', '-DMIR_MAX_INSNS_FOR_CALL_INLINE=0'] + ASAN,
                       only=['mir']),
-    'asan-inlmax': dict(cc='gcc', flags=['-O1', '-g', '-std=gnu11', '-fsigned-char', '-fPIC', '-w',
+    'asan-inlmax': dict(cc='gcc', flags=['-O1', '-g', '-std=gnu11', '-fsigned-char', '-fPIC', '-w', '-fno-tree-sra', '-fno-ipa-cp-clone',
                                           '-DMIR_MAX_INSNS_FOR_INLINE=20000', '-DMIR_MAX_INSNS_FOR_CALL_INLINE=5000',
                                           '-DMIR_MAX_FUNC_INLINE_GROWTH=5000', '-DMIR_MAX_CALLER_SIZE_FOR_ANY_GROWTH_INLINE=100000'] + ASAN,
                         only=['mir']),
-    'tsan': dict(cc='clang', flags=['-O1', '-g', '-std=gnu11', '-fsigned-char', '-fPIC', '-w', '-fsanitize=thread']),
-    'plain': dict(cc='gcc', flags=['-O2', '-g', '-std=gnu11', '-fsigned-char', '-fPIC', '-w', '-DNDEBUG']),
-    'fuzz': dict(cc='clang', flags=['-O1', '-g', '-std=gnu11', '-fsigned-char', '-fPIC', '-w',
+    'tsan': dict(cc='clang', flags=['-O1', '-g', '-std=gnu11', '-fsigned-char', '-fPIC', '-w', '-fno-tree-sra', '-fno-ipa-cp-clone', '-fsanitize=thread']),
+    'plain': dict(cc='gcc', flags=['-O2', '-g', '-std=gnu11', '-fsigned-char', '-fPIC', '-w', '-fno-tree-sra', '-fno-ipa-cp-clone', '-DNDEBUG']),
+    'fuzz': dict(cc='clang', flags=['-O1', '-g', '-std=gnu11', '-fsigned-char', '-fPIC', '-w', '-fno-tree-sra', '-fno-ipa-cp-clone',
                                     '-fsanitize=fuzzer-no-link,address', '-fno-omit-frame-pointer']),
 }
 LIB_TUS = {'mir': 'mir.c', 'mir-gen': 'mir-gen.c', 'c2mir': 'c2mir/c2mir.c'}
